@@ -1342,7 +1342,7 @@ def run(chk: core.Check):
     if quick:
         stage_oracle(chk, 45 * boost, 12, 3)
     else:
-        stage_oracle(chk, 250 * boost, 20, 4)
+        stage_oracle(chk, 350 * boost, 25, 4)
 
 
 def replay(payload) -> int:
